@@ -307,6 +307,21 @@ def run_sensitivity(pid, module, repo="/repo", only=None, verbose=True):
             known = {k["key"] for k in load_known() if k.get("property") == pid and k.get("status") == "known"}
             bad = [i for i in insts if i.verdict != "holds" and i.full_key not in known]
             ran += 1
+            if expect == ["none"]:
+                # negative control: behaviour-preserving edit, the check must stay silent
+                if bad:
+                    failures.append(os.path.basename(p))
+                    results.append({"patch": os.path.basename(p), "result": "FALSE-ALARM", "by": sorted({i.full_key for i in bad})[:8]})
+                    if verbose:
+                        print("SELFTEST-FAIL %s %s: false alarm on a behaviour-preserving edit: %s" % (pid, os.path.basename(p), sorted({i.full_key for i in bad})[:6]))
+                        for i in bad[:4]:
+                            print("    %s %s -- %s" % (i.full_key, i.where, i.msg[:200]))
+                else:
+                    det += 1
+                    results.append({"patch": os.path.basename(p), "result": "silent (negative control)"})
+                    if verbose:
+                        print("SENSITIVITY %s %s: silent, as expected for a behaviour-preserving edit" % (pid, os.path.basename(p)))
+                continue
             hit = [i for i in bad if any(e in i.full_key for e in expect)] if expect else bad
             if hit:
                 det += 1
